@@ -830,6 +830,10 @@ def run(ck):
     dispatch(ck, load_corpus())
     dispatch(ck, gen_scenarios(ck, quick))
     dispatch(ck, gen_parallel_scenarios(ck, 16 if quick else 120))
+    try:  # Ctrl-C inside the parallel scheduler's join (harness/corr/interrupt_join.py)
+        from corr import interrupt_join; interrupt_join.scenarios(ck)
+    except ImportError:
+        pass
     dispatch(ck, gen_denoise_py_cases(ck, 300))
     if not quick:
         dispatch(ck, gen_denoise_py_cases(ck, 0, exhaustive=True))
@@ -841,4 +845,7 @@ def run(ck):
 
 
 def replay(ck, data):
+    if data['input'].get('kind') == 'interrupt-join':
+        from corr import interrupt_join
+        return interrupt_join.replay(ck, data)
     dispatch(ck, [data['input']])
